@@ -67,7 +67,10 @@ class Run:
         self._orig_destroy = bptk.destroy
         run = self
 
+        self._keep = []   # strong references: id() of a collected object could be reused by a restored instance
+
         def destroy(b):
+            run._keep.append(b)
             run.destroyed[id(b)] = run.destroyed.get(id(b), 0) + 1
             return run._orig_destroy(b)
         bptk.destroy = destroy
